@@ -252,7 +252,14 @@ parser! {
     // B.1.2.1 Numeric literals
     // numeric_literal omitted because it only appears in constant so we do not need to create a type for it
     rule integer_literal() -> IntegerLiteral = data_type:(t:integer_type_name() tok(TokenType::Hash) {t})? value:(bi:binary_integer() { bi.into() } / oi:octal_integer() { oi.into() } / hi:hex_integer() { hi.into() } / si:signed_integer() { si }) { IntegerLiteral { value, data_type } }
-    rule signed_integer__positive() -> SignedInteger = tok(TokenType::Plus)? digits:tok(TokenType::Digits) {? SignedInteger::new(digits.text.as_str(), digits.span.clone()) }
+    // The position of a number that is written with a sign is the sign and the digits
+    rule signed_integer__positive() -> SignedInteger = sign:tok(TokenType::Plus)? digits:tok(TokenType::Digits) {?
+      let span = match &sign {
+        Some(sign) => SourceSpan::join(&sign.span, &digits.span),
+        None => digits.span.clone(),
+      };
+      SignedInteger::new(digits.text.as_str(), span)
+    }
     // The position of a negative number is the sign and the digits
     rule signed_integer__negative() -> SignedInteger = sign:tok(TokenType::Minus) digits:tok(TokenType::Digits) {? SignedInteger::new(digits.text.as_str(), SourceSpan::join(&sign.span, &digits.span)).map(|mut value| { value.is_neg = true; value }) }
     rule signed_integer() -> SignedInteger = signed_integer__positive() / signed_integer__negative()
